@@ -110,9 +110,32 @@ def run(ctx: Ctx):
     # wrapper takes copy 0 rows
     w = ctx.repo.get_function(TR, "dihedral_8_augmentation_wrapper")
     ctx.fn(w)
-    src = ast.unparse(w.node)
-    ctx.ob("C15.a", "dihedral-wrapper:first-eighth", "xy[:xy.shape[0] // 8, ...] if reduce else xy" in src and "return dihedral_8_augmentation(xy)" in src, w.loc,
-           "the wrapper re-augments the first B rows (copy 0 of the (augment, batch) layout)", construct="dihedral_8_augmentation_wrapper:rows")
+    itw = vg.Interp(ctx.repo, None, inline_policy=lambda f, a: False)
+    rw = itw.run_function(w).ret
+
+    def leading_block(idx, base, k):
+        """idx selects rows [0, base.shape[0] // k) on axis 0 (and everything on the other axes)"""
+        first = idx.args[0] if isinstance(idx, vg.S) and idx.op == "tuple" and idx.args else idx
+        rest = list(idx.args[1:]) if isinstance(idx, vg.S) and idx.op == "tuple" else []
+        if not (isinstance(first, vg.S) and first.op == "slice" and vg.is_const(first.args[0], None) and vg.is_const(first.args[2], None)):
+            return False
+        up = first.args[1]
+        if not (isinstance(up, vg.S) and up.op == "//" and up.args[1] is k):
+            return False
+        n0 = up.args[0]
+        rows = (n0.op == "sub" and vg.is_const(n0.args[1], 0) and n0.args[0].op == "attr" and n0.args[0].args[1] == "shape" and n0.args[0].args[0] is base) or \
+            (n0.op == "meth" and n0.args[1] == "size" and n0.args[0] is base and len(n0.args) == 3 and vg.is_const(n0.args[2], 0))
+        return rows and all(x.op == "ellipsis" or (x.op == "slice" and all(vg.is_const(y, None) for y in x.args)) for x in rest)
+
+    okw = False
+    if isinstance(rw, vg.S) and (nf._fn(rw) or "").endswith(":dihedral_8_augmentation") and len(rw.args) == 2:
+        arg = rw.args[1]
+        xyp = vg.mk("param", w.params()[0])
+        if arg.op in ("ifexp", "phi") and arg.args[0].op == "param" and arg.args[0].args[0] == "reduce":
+            red, full = arg.args[1], arg.args[2]
+            okw = full is xyp and red.op == "sub" and red.args[0] is xyp and leading_block(red.args[1], xyp, vg.const(8))
+    ctx.ob("C15.a", "dihedral-wrapper:first-eighth", okw, w.loc,
+           "with reduce, the wrapper re-augments rows [0, B/8) -- copy 0 of the (augment, batch) layout; otherwise the input as is", construct="dihedral_8_augmentation_wrapper:rows")
     # ---------------- b: symmetric transform
     fs_ = ctx.repo.get_function(TR, "symmetric_transform")
     ctx.fn(fs_)
@@ -153,33 +176,76 @@ def run(ctx: Ctx):
     ctx.ob("C15.b", "symmetric_transform:swap-and-offset", okr, fs_.loc, whr, construct="symmetric_transform:return")
     sa_ = ctx.repo.get_function(TR, "symmetric_augmentation")
     ctx.fn(sa_)
-    src = ast.unparse(sa_.node)
-    ok = "if not first_augment:\n        phi[:xy.shape[0] // num_augment] = 0.0" in src and "return symmetric_transform(x, y, phi[:, None, None])" in src and "x, y = (xy[..., [0]], xy[..., [1]])" in src
-    ctx.ob("C15.b", "symmetric_augmentation:first-copy-identity", ok, sa_.loc, "phi = 0 for the first B rows (copy 0) unless first_augment; x and y are coordinates 0 and 1", construct="symmetric_augmentation:identity")
+    its = vg.Interp(ctx.repo, None, inline_policy=lambda f, a: False)
+    rs_ = its.run_function(sa_).ret
+    ok, why = False, "does not return symmetric_transform(x, y, phi[...])"
+    if isinstance(rs_, vg.S) and (nf._fn(rs_) or "").endswith(":symmetric_transform") and len(rs_.args) >= 4:
+        xa, ya, pa = rs_.args[1], rs_.args[2], rs_.args[3]
+        xyp = vg.mk("param", sa_.params()[0])
+
+        def coord(v):
+            if v.op == "sub" and v.args[0] is xyp and v.args[1].op == "tuple" and len(v.args[1].args) == 2 and v.args[1].args[0].op == "ellipsis":
+                c = v.args[1].args[1]
+                if c.op == "list" and len(c.args) == 1 and c.args[0].op == "const":
+                    return c.args[0].args[0]
+            return None
+        cx, cy = coord(xa), coord(ya)
+        coords_ok = cx == 0 and cy == 1
+        ph = pa.args[0] if pa.op == "sub" else pa
+        id_ok = False
+        if ph.op in ("phi", "ifexp"):
+            t, a_, b_ = ph.args
+            neg = t.op == "not" and t.args[0].op == "param" and t.args[0].args[0] == "first_augment"
+            pos = t.op == "param" and t.args[0] == "first_augment"
+            zeroed, plain = (a_, b_) if neg else ((b_, a_) if pos else (None, None))
+            if zeroed is not None and zeroed.op == "store" and zeroed.args[0] is plain and vg.is_const(zeroed.args[2], 0.0):
+                id_ok = leading_block(zeroed.args[1], xyp, vg.mk("param", "num_augment"))
+        ok = coords_ok and id_ok
+        why = f"x, y are coordinates 0 and 1 of xy: {coords_ok}; phi = 0 on rows [0, B/num_augment) (copy 0 is the identity) unless first_augment: {id_ok}"
+    ctx.ob("C15.b", "symmetric_augmentation:first-copy-identity", ok, sa_.loc, why, construct="symmetric_augmentation:identity")
     st = ctx.repo.get_function(TR, "StateAugmentation.__call__")
     ctx.fn(st)
-    src = ast.unparse(st.node)
-    ok = "td_aug = batchify(td, self.num_augment)" in src and "self.augmentation(td_aug[feat], self.num_augment)" in src and "td_aug[feat] = aug_feat" in src
-    ctx.ob("C15.b", "StateAugmentation.__call__", ok, st.loc, "augments the features of batchify(td, num_augment) (layout (augment, batch)) and writes them back under the same key", construct="StateAugmentation.__call__:flow")
+    itst = vg.Interp(ctx.repo, st.cls, inline_policy=lambda f, a: False)
+    frst = itst.run_function(st)
+    rst = frst.ret
+    ok, why = False, "the augmented TensorDict is not batchify(td, num_augment) with features rewritten in a loop"
+    cand = [v for v in (rst,) if isinstance(v, vg.S)]
+    for v in cand:
+        if v.op == "loop" and (nf._fn(v.args[0]) or "").endswith(":batchify") and v.args[1].op == "store":
+            init, stv = v.args[0], v.args[1]
+            na = init.args[2]
+            key = stv.args[1]
+            lv = stv.args[0]
+            calls = [n for n in vg.walk(stv.args[2]) if n.op == "meth" and n.args[0].op == "self" and n.args[1] == "augmentation"]
+            same = bool(calls) and all(len(c.args) >= 4 and c.args[2].op == "sub" and c.args[2].args[0] is lv and c.args[2].args[1] is key and c.args[3] is na for c in calls)
+            from_td = init.args[1].op in ("tdref", "param")
+            ok = lv.op == "loopvar" and same and from_td and key.op == "iter"
+            why = f"td_aug = batchify(td, num_augment): {from_td}; for every feature, augmentation(td_aug[feat], that same num_augment) is written back under that same key: {same}"
+    ctx.ob("C15.b", "StateAugmentation.__call__", ok, st.loc, why, construct="StateAugmentation.__call__:flow")
     # ---------------- c: evaluation bookkeeping
     for cn in ("AugmentationEval", "GreedyMultiStartEval", "GreedyMultiStartAugmentEval"):
         fi = ctx.repo.get_function(EV, f"{cn}._inner")
         ctx.fn(fi)
-        body = fi.node.body
-        stm = [ast.unparse(b) for b in body]
-        idx_init = next((i for i, s_ in enumerate(stm) if s_ == "td_init = td.clone()"), None)
-        idx_aug = next((i for i, s_ in enumerate(stm) if "self.augmentation(td)" in s_), None)
-        rew = [n for n in ast.walk(fi.node) if isinstance(n, ast.Call) and ast.unparse(n.func) == "self.env.get_reward"]
-        ok = idx_init is not None and (idx_aug is None or idx_init < idx_aug) and len(rew) == 1
-        why = "td_init cloned before augmentation"
-        if ok:
-            a0, a1 = rew[0].args[0], rew[0].args[1]
-            src0 = ast.unparse(a0)
-            if isinstance(a0, ast.Name):
-                asg = [b for b in body if isinstance(b, ast.Assign) and isinstance(b.targets[0], ast.Name) and b.targets[0].id == a0.id and "batchify(td_init" in ast.unparse(b.value)]
-                src0 = ast.unparse(asg[-1].value) if asg else src0
-            ok = src0.startswith("batchify(td_init,") and ast.unparse(a1) == "out['actions']"
-            why = f"reward = env.get_reward({src0}, {ast.unparse(a1)})"
+        ite = vg.Interp(ctx.repo, fi.cls, inline_policy=lambda f, a: False)
+        fre = ite.run_function(fi)
+        rew = [e for e in ite.events if e.kind == "methcall" and e.data[1] == "get_reward" and len(e.data[2]) >= 2]
+        ok, why = False, f"{len(rew)} env.get_reward call(s)"
+        if len(rew) == 1:
+            a0, a1 = rew[0].data[2][0], rew[0].data[2][1]
+            param_td = [t for t in ite.tds if t.name == fi.params()[2] and getattr(t, "cloned_from", None) is None and t.parent is None]
+            by_uid = {t.uid: t for t in ite.tds}
+            on_orig = False
+            if isinstance(a0, vg.S) and (nf._fn(a0) or "").endswith(":batchify") and a0.args[1].op == "tdref":
+                t0 = by_uid.get(a0.args[1].args[1])
+                # an unmodified clone of the parameter (taken before augmentation replaced `td`), or the parameter itself
+                on_orig = t0 is not None and bool(param_td) and (t0 is param_td[0] or getattr(t0, "cloned_from", None) is param_td[0]) and not t0.cells and not t0.opaque_updates
+            acts = isinstance(a1, vg.S) and a1.op == "sub" and vg.is_const(a1.args[1], "actions") and a1.args[0].op == "call" and a1.args[0].args[0].op == "param" and a1.args[0].args[0].args[0] == fi.params()[1]
+            ret = fre.ret
+            items = ret.items if isinstance(ret, vg.Tup) else (list(ret.args) if isinstance(ret, vg.S) and ret.op == "tuple" else [])
+            # the reported reward derives from that get_reward call
+            rep = len(items) == 2 and isinstance(items[1], vg.S) and any(n.op == "meth" and n.args[1] == "get_reward" for n in vg.walk(items[1]))
+            ok = on_orig and acts and rep
+            why = f"reward = env.get_reward(batchify(<un-augmented clone of td>, k), policy(...)['actions']): original instance {on_orig}, policy actions {acts}; the reported reward derives from it: {rep}"
         ctx.ob("C15.c", f"{cn}._inner:reward-on-original", ok, fi.loc, why + ("" if ok else " -- the reward must be recomputed on the un-augmented clone with the policy's actions"),
                construct=f"{cn}._inner:reward-source")
     # shared rules (C12 factor/best-of, C17 loader order) are run again under this property
